@@ -131,9 +131,13 @@ impl StatusList2021Credential {
     index: usize,
     revoked_or_suspended: bool,
   ) -> Result<StatusList2021Entry, StatusList2021CredentialError> {
+    // `statusListCredential` has to be the URL of this credential, which is what status validation compares it with.
+    // The credential subject's id may additionally carry a fragment.
     let id = self
-      .id()
-      .cloned()
+      .inner
+      .id
+      .clone()
+      .or_else(|| self.id().cloned())
       .ok_or(StatusList2021CredentialError::Unreferenceable)?;
     let entry = StatusList2021Entry::new(id, self.purpose(), index, None);
 
